@@ -39,6 +39,9 @@ const FIXTURE: &str = "/repo/askar-storage/tests/indy_wallet_sqlite.db";
 const FIXTURE_NAME: &str = "walletwallet.0";
 const FIXTURE_KEY: &str = "GfwU1DC7gEZNs3w41tjBiZYj7BNToDoFEqKY6wZXqs1A";
 
+#[path = "c18_indyx.rs"]
+mod indyx;
+
 fn verif_home() -> String { std::env::var("VERIF_HOME").unwrap_or_else(|_| "/verif".into()) }
 
 // =============================================================================================
@@ -274,6 +277,11 @@ pub fn gen(r: &mut Rng, thorough: bool, count: Option<usize>) -> Vec<Value> {
         let name = *rr.pick(&["wallet-1", "w", "Wällét ✓", "walletwallet.0"]);
         push(&mut out, json!({"kind": "c18:indy", "id": 0, "kdf": kdf, "name": name, "seed": rr.next() >> 12, "items": items}));
     }
+    // (j) failure semantics of the migration: wrong key / method, second run, not a wallet, damaged metadata and cells,
+    //     statement fault and SIGKILL in the middle (c18_indyx.rs)
+    let mut extra = vec![];
+    indyx::gen_indyx(r, thorough, &mut extra);
+    for c in extra { push(&mut out, c); }
     if let Some(c) = count { out.truncate(c); }
     out
 }
@@ -817,8 +825,16 @@ const INDY_SCHEMA: &str = "
     CREATE INDEX ix_tags_plaintext_value ON tags_plaintext(value);
     CREATE INDEX ix_tags_plaintext_item_id ON tags_plaintext(item_id);";
 
+/// what the independent writer knows about the wallet it wrote
+struct IndyWallet { wallet_key: String, keys: IndyKeys, salt: Vec<u8>, master: [u8; 32] }
+
 /// write an Indy wallet holding `items`; returns the wallet key string
 fn write_indy_wallet(path: &str, kdf: &str, seed: u64, items: &[Value]) -> String {
+    write_indy_wallet_ex(path, kdf, seed, items, None).wallet_key
+}
+
+/// the same with the wallet key chosen by the caller (`wkey`); also returns the wallet's secrets
+fn write_indy_wallet_ex(path: &str, kdf: &str, seed: u64, items: &[Value], wkey: Option<&str>) -> IndyWallet {
     let mut r = Rng::new(seed);
     std::fs::File::create(path).expect("create wallet file");
     let db = RawDb::open(path).expect("open wallet file");
@@ -827,6 +843,7 @@ fn write_indy_wallet(path: &str, kdf: &str, seed: u64, items: &[Value]) -> Strin
     for k in keys.keys.iter_mut() { k.copy_from_slice(&r.bytes(32)); }
     let salt = r.bytes(32);
     let wallet_key = if kdf == "RAW" { b58(&r.bytes(32)) } else { format!("pass-{}-ü", r.next() % 1000) };
+    let wallet_key = wkey.map_or(wallet_key, |k| k.to_string());
     let master = indy_master_key(kdf, &wallet_key, &salt);
     let keys_enc = seal(&master, &r.bytes(12), &msgpack_keys(&keys));
     let meta = if kdf == "RAW" { json!({"keys": keys_enc}) } else { json!({"keys": keys_enc, "master_key_salt": salt}) };
@@ -858,7 +875,7 @@ fn write_indy_wallet(path: &str, kdf: &str, seed: u64, items: &[Value]) -> Strin
         }
     }
     db.exec("COMMIT").unwrap();
-    wallet_key
+    IndyWallet { wallet_key, keys, salt, master }
 }
 
 /// independent decode of an Indy wallet file into the logical records (kind = Item)
@@ -987,6 +1004,8 @@ pub fn exec(case: &Value, tag: &str) -> Value {
         "c18:copy" => exec_copy(case, tag),
         "c18:indy" => exec_indy(case, tag),
         "c18:fixture" => exec_fixture(case, tag),
+        "c18:indyx" => indyx::exec_indyx(case, tag),
+        "c18:child" => indyx::exec_child(case),
         k => json!({"out": {"err": format!("unknown kind {}", k)}}),
     }
 }
